@@ -12,8 +12,9 @@ Decided statically:
     or the policy's pick_predicate, and pick_predicate values are built around is_alive.
 Not decided: completeness, group ordering, liveness ordering (properties of iterator contents over data).
 """
+from ..inline import inline_view
 from ..mir import AnchorLost
-from ..util import df_of, fn_short, in_set, backward_slice, operand_path, path_last, switch_on, switch_edges, field_writers
+from ..util import closure_family, df_of, fn_short, in_set, backward_slice, operand_path, path_last, switch_on, switch_edges, field_writers
 from ..callgraph import CallGraph
 from .c20 import slice_fields
 
@@ -160,7 +161,7 @@ def r3(ctx, facts):
     pb = facts.one(r"^<scylla::policies::load_balancing::plan::Plan<'a> as core::iter::traits::iterator::Iterator>::next$")
     # the Fallback arm compares with the picked target
     cmps = [c for bb, c in pb.calls() if bb in pb.live_blocks and (c.decl in ("core::cmp::PartialEq::eq", "core::cmp::PartialEq::ne") or (c.name or "").endswith("ptr_eq") or (c.name or "").endswith("Arc::<T, A>::ptr_eq"))]
-    clos = [facts.body(p) for p in facts.bodies.keys() if p.startswith(pb.path + "::{closure")]
+    clos = closure_family(facts, pb)[1:]
     for cb in clos:
         cmps += [c for bb, c in cb.calls() if bb in cb.live_blocks and (c.decl in ("core::cmp::PartialEq::eq", "core::cmp::PartialEq::ne") or (c.name or "").endswith("ptr_eq"))]
     r.instance("plan-skips-picked-target", bool(cmps), "Plan::next must compare fallback elements with the already returned first target", pb.span)
@@ -307,7 +308,7 @@ def r5(ctx, facts):
 
 
 def check(ctx):
-    facts = ctx.facts("default")
+    facts = inline_view(ctx.facts("default"))
     for fn in (r1, r2, r3, r4, r5):
         try:
             fn(ctx, facts)
